@@ -286,6 +286,110 @@ pub fn run(ctx: &Ctx) -> Report {
         }
     });
     rep.merge(r);
+    // ---- several errors on one connection: the same kind again and again, texts of the same length
+    //      that differ in a few characters ("Unknown table 't7'" / "Unknown table 't8'"), formatted by
+    //      the backend into one reused buffer (same address) - every ERR carries its own text
+    let n = if ctx.miri { 2 } else { ctx.n(1500, 40_000) };
+    let r = par_cases(ctx, "C13", "repeated-errors", n, |rng, i, rep| {
+        let (name, code) = &kinds_ref[rng.usize(kinds_ref.len())];
+        let code = *code;
+        let other = kinds_ref[rng.usize(kinds_ref.len())].1;
+        let base_len = *rng.pick(&[0usize, 1, 5, 17, 17, 40, 199, 200, 201]);
+        let base = rng.ascii(base_len);
+        let cols = vec![simple_col("a", ColumnType::MYSQL_TYPE_LONG)];
+        let mut cmds = vec![Cmd::prepare(b"p")];
+        let mut scripts = vec![Script::PrepOk { id: 1, params: vec![], cols: cols.clone() }];
+        let q = |ops: Vec<QOp>| Script::Q(QProg { colsets: vec![cols.clone()], ops, on_err: OnErr::Drop });
+        let mut want: Vec<Option<(u16, Vec<u8>)>> = vec![None];
+        let nerr = rng.range(2, 6);
+        for k in 0..nerr {
+            // mostly the same kind and length as the error before, sometimes another kind or length
+            let c = if rng.chance(1, 6) { other } else { code };
+            let mut m = base.clone();
+            if !m.is_empty() {
+                let at = rng.usize(m.len());
+                m[at] = b'0' + (k as u8 % 10);
+            }
+            if rng.chance(1, 8) {
+                m.push(b'!');
+            }
+            match rng.below(6) {
+                0 => {
+                    cmds.push(Cmd::query(b"q"));
+                    scripts.push(q(vec![QOp::Error(c, m.clone())]));
+                }
+                1 => {
+                    cmds.push(Cmd::query(b"q"));
+                    scripts.push(q(vec![QOp::Start(0), QOp::Row(vec![Cell::val(V::I32(1))], RowForm::Owned), QOp::FinishErr(c, m.clone())]));
+                }
+                2 => {
+                    cmds.push(Cmd::execute(1, &[], false));
+                    scripts.push(q(vec![QOp::Start(0), QOp::FinishErr(c, m.clone())]));
+                }
+                3 => {
+                    cmds.push(Cmd::prepare(b"bad"));
+                    scripts.push(Script::PrepErr(c, m.clone()));
+                }
+                4 => {
+                    cmds.push(Cmd::init_db(b"db"));
+                    scripts.push(Script::InitErr(c, m.clone()));
+                }
+                _ => {
+                    cmds.push(Cmd::query(b"USE db"));
+                    scripts.push(Script::InitErr(c, m.clone()));
+                }
+            }
+            want.push(Some((c, m)));
+            // replies without an error in between must not matter
+            if rng.chance(1, 3) {
+                cmds.push(Cmd::ping());
+                want.push(None);
+            }
+        }
+        let obs = run_case(&varied_case(rng, cmds, scripts));
+        rep.evaluations += 1;
+        if harness_panic(&obs, rep) {
+            return;
+        }
+        rep.counters.class(format!("repeated errors: {} per connection, text of {}", nerr, len_class(base_len)));
+        let d = || J::obj().set("kind", name.clone()).set("errors", want.iter().flatten().map(|(c, m)| J::s(format!("{} {:?}", c, show(m)))).collect::<Vec<_>>()).set("outcome", obs.outcome.describe());
+        if i == 0 {
+            rep.sample(d());
+        }
+        let dec = match decode_output(&obs) {
+            Ok(x) => x.2,
+            Err(e) => {
+                rep.violations.push(viol("C13", "C13 bad-framing".into(), e, d()));
+                return;
+            }
+        };
+        for (k, w) in want.iter().enumerate() {
+            let Some((c, m)) = w else { continue };
+            let got = match dec.resps.get(2 + k) {
+                Some(Resp::Parts(parts)) => match parts.last() {
+                    Some(Part::Err(e)) => Some(e.clone()),
+                    Some(Part::Rows { end: RowsEnd::Err(e), .. }) => Some(e.clone()),
+                    _ => None,
+                },
+                Some(Resp::Simple(Part::Err(e))) | Some(Resp::PrepareErr(e)) => Some(e.clone()),
+                _ => None,
+            };
+            rep.counters.inc("repeated_errors_compared");
+            let kind = ErrorKind::from(*c);
+            match got {
+                Some(e) if e.code == *c && e.msg == *m && &e.state[..] == kind.sqlstate() => {}
+                other => {
+                    rep.violations.push(viol("C13", "C13 repeated-error-differs".into(), format!("error #{} of the connection was reported as ({}, {:?}); the client got {:?}", k, c, show(m), other.map(|e| format!("({}, {}, {:?})", e.code, show(&e.state), show(&e.msg)))), d()));
+                    return;
+                }
+            }
+        }
+    });
+    rep.merge(r);
+    if ctx.strict() {
+        rep.require("repeated_errors_compared", 1000);
+    }
+
     // ---- finish_error after a refused value (props/recover.rs): the ERR carries what it was given
     rep.merge(super::recover::group(ctx, "C13", super::recover::Clause::ErrFields, None, 1500, 30_000));
     rep.merge(super::mega::run(ctx, "C13", 1500, 60000));
